@@ -108,6 +108,9 @@ def run(ctx):
                 # emits, exact (incl. "the code raises")
                 if rangeplan.answer(out) != exp:
                     ctx.mismatch(op, replay, exp, out)
+                if op == "fitGuards":
+                    # relational: the model's guards true => the real replace_step neither raised nor hung
+                    rangeplan.check_fit_guards(ctx, replay, out)
                 continue
             if op == "inside":
                 # the monitor is sufficient, not necessary: a step may re-create the node's own close tokens from its slice
